@@ -56,7 +56,7 @@ TYPES = ('LightSetColor', 'LightSetPower', 'MultiZoneSetColorZones',
 
 
 def runs_for(tier):
-    return 7000 if tier == "quick" else 150000
+    return 4500 if tier == "quick" else 120000
 
 
 # ---------------------------------------------------------------------------
@@ -179,6 +179,10 @@ def gen(rng, tier, index):
     followers = [_follower_text(rng, pop, k)
                  for k in range(rng.choice([0, 0, 1, 1, 2]))]
     how = rng.choice(['agent', 'stop_job', 'stop_current', 'stop_all'])
+    bg = rng.random() < 0.25        # the script runs as a background job
+    if bg:
+        how = rng.choice(['agent', 'stop_job', 'stop_background',
+                          'stop_all'])
     if rng.random() < 0.55:
         names = sorted(targets())
         where = rng.choice(names)
@@ -203,7 +207,7 @@ def gen(rng, tier, index):
     return {'policy': pol, 'population': pop, 'tick': tick, 'shape': shape,
             'start': [hour, minute, second], 'main': text,
             'followers': followers, 'how': how, 'timing': timing,
-            'rerun': rerun,
+            'rerun': rerun, 'bg': bg,
             'other': _follower_text(rng, pop, 5)}
 
 
@@ -294,6 +298,60 @@ def solo_run(text, pop, tick, start):
     return val
 
 
+_timeline_cache = {}
+
+
+def solo_timeline(text, pop, tick, start, duration):
+    """Reference: virtual offsets (from the start of execute()) at which the
+    script, run alone and undisturbed, sends its commands during its first
+    `duration` seconds."""
+    from sim import policy
+    import datetime
+    import math
+    duration = math.ceil(duration / (10 * tick)) * 10 * tick
+    key = json.dumps([text, pop, tick, start, round(duration, 6)],
+                     sort_keys=True)
+    if key in _timeline_cache:
+        return _timeline_cache[key]
+    from bardolph.controller.script_job import ScriptJob
+    from bardolph.lib.job_control import JobControl
+    env.capture_logs()
+    out = {}
+
+    class TJob(ScriptJob):
+        def execute(self):
+            out['t0'] = core.current().now
+            super().execute()
+
+    def main(sim):
+        net, ls, ok = env.build_world(sim, pop, settings={'sleep_time': tick})
+        mark = sim.evno
+        job = TJob()
+        job.load_string(text)
+        jc = JobControl()
+        agent = jc.add_job(job, 'solo')
+        th = agent._thread._st
+        sim.join(th, timeout=duration)
+        agent.request_stop()
+        sim.join(th, timeout=5 + 3 * tick)
+        out['wire'] = [w for w in world.wire_timed(net, mark, TYPES)]
+
+    with world.StdoutCapture():
+        sim, res = world.run_sim(
+            main, policy.ReplayChooser([]), gran='sync', step_cap=500000,
+            start_dt=datetime.datetime(2024, 3, 5, start[0], start[1],
+                                       int(start[2]),
+                                       int((start[2] % 1) * 1e6)))
+    val = None
+    if res.status == 'ok' and 't0' in out:
+        val = [round(w[1] - out['t0'], 9) for w in out['wire']
+               if w[1] - out['t0'] <= duration]
+    if len(_timeline_cache) > 500:
+        _timeline_cache.clear()
+    _timeline_cache[key] = (val, duration)
+    return _timeline_cache[key]
+
+
 def execute(scenario, chooser):
     import datetime
     from bardolph.controller.script_job import ScriptJob
@@ -361,7 +419,10 @@ def execute(scenario, chooser):
                     cur.name not in armed and tuple(cur.tag[:2]) == arm_tag:
                 armed[cur.name] = s.evno
         sim.watch.append(arm_watch)
-        agent = jc.add_job(main_job, 'main')
+        if sc.get('bg'):
+            agent = jc.spawn_job(main_job, 'main')
+        else:
+            agent = jc.add_job(main_job, 'main')
         for j in fjobs:
             jc.add_job(j, j.jname)
         st['queued_ev'] = sim.next_event()
@@ -382,6 +443,8 @@ def execute(scenario, chooser):
                     wa.stop_script('main')
                 elif how == 'stop_current':
                     wa.stop_current()
+                elif how == 'stop_background':
+                    jc.stop_background()
                 else:
                     wa.stop_all()
             except core.SimAbort:
@@ -480,9 +543,10 @@ def execute(scenario, chooser):
            'switch_digest': sim.switch_digest(), 'sim_time': sim.now,
            'steps': sim.steps, 'faults': {}, 'probes': dict(sim.stats),
            'deviations': list(sim.deviations), 'harness_error': None,
-           'shape': '{}:{}:{}:{}:{}'.format(
-               sc['shape'], sc['how'], timing['mode'],
-               timing.get('where', ''), len(sc['followers']))}
+           'shape': '{}:{}{}:{}:{}:{}'.format(
+               sc['shape'], 'bg-' if sc.get('bg') else '', sc['how'],
+               timing['mode'], timing.get('where', ''),
+               len(sc['followers']))}
     probes = res['probes']
     if 'compile_error' in st:
         res['harness_error'] = 'script rejected: {}\n{}'.format(
@@ -625,9 +689,9 @@ def _judge(sc, st, hist, sim, cap, violation, probes, res):
                       st['main_block_at_inv'],
                       world.fmt_stacks(st.get('stacks', {}))))
         return
-    aimed_at_main = how in ('agent', 'stop_job') or (
+    aimed_at_main = how in ('agent', 'stop_job', 'stop_background') or (
         how in ('stop_current', 'stop_all') and
-        running_over('main', S_inv, S))
+        (sc.get('bg') or running_over('main', S_inv, S)))
     main_live_during = (not main_ended_before and
                         (not main_end or main_end[0][2] > S))
     if aimed_at_main and main_live_during and 'main' not in victims:
@@ -635,8 +699,45 @@ def _judge(sc, st, hist, sim, cap, violation, probes, res):
                   '{} returned while job main was live but the job never '
                   'received the stop request'.format(how))
 
-    # ---- no further commands from a stopped job ---------------------------
+    # ---- a stop never makes the script run ahead of its own time line ------
     wire = world.wire_timed(net, st['mark'], TYPES)
+    starts = _events(hist, 'exec_start', 'main')
+    if 'main' in victims and starts and sc['shape'] != 'time_at':
+        t_start = starts[0][3]
+        mine = [w for w in wire if _owner(w[3], w[4]) == 'main' and
+                (st.get('rerun_mark') is None or w[0] < st['rerun_mark'])]
+        if mine:
+            span = max(w[1] for w in mine) - t_start + 2 * tick + 0.05
+            ref, dur = solo_timeline(sc['main'], sc['population'], tick,
+                                     sc['start'], span)
+            if ref is not None:
+                slack = tick + 0.02
+                for k, w in enumerate(mine):
+                    off = w[1] - t_start
+                    if k >= len(ref):
+                        if off <= dur - slack:
+                            violation(KNOWN_PRE_ARM if _preceded_arming(
+                                st, hist, sim, 'main') else
+                                'ahead-of-schedule',
+                                      'stopped job sent command #{} {:.4f} s '
+                                      'after its start; undisturbed, the '
+                                      'script sends only {} commands in its '
+                                      'first {:.2f} s'.format(
+                                          k + 1, off, len(ref), dur))
+                            break
+                        continue
+                    if off < ref[k] - slack:
+                        violation(KNOWN_PRE_ARM if _preceded_arming(
+                            st, hist, sim, 'main') else 'ahead-of-schedule',
+                                  'command #{} of the stopped job went out '
+                                  '{:.4f} s after its start, {:.4f} s earlier '
+                                  'than in an undisturbed run ({:.4f}); the '
+                                  'stop call ran from t={:.4f} to {:.4f}'
+                                  .format(k + 1, off, ref[k] - off, ref[k],
+                                          st['t_inv'], st['t_S']))
+                        break
+
+    # ---- no further commands from a stopped job ---------------------------
     for jname in dict.fromkeys(victims):
         req_ev = _events(hist, 'stop_req', jname)[0][2]
         ended = _events(hist, 'exec_end', jname)
